@@ -197,5 +197,6 @@ pub fn prop() -> Prop {
         direct: Some(direct),
         selftest: Some(crate::rfc::selftest),
         fuzz: Some(FuzzSpec { target: "accrej", runs: 100000, max_len: 200, tag: "C06", seed_corpus: Some("accrej") }),
+        insertion_order_stage: false,
     }
 }
